@@ -215,7 +215,7 @@ BAD_CALLS = [
     ("read-badbuf", '(ev/read pAr 10 :notbuf 0.015)'), ("read-notreadable", '(ev/read pAw 10 @"" 0.015)'),
     ("read-closed", '(ev/read pCr 10 @"" 0.015)'), ("read-method-neg", '(:read pAr -1 @"" 0.015)'),
     ("chunk-neg", '(ev/chunk pAr -1 @"" 0.015)'), ("chunk-closed", '(ev/chunk pCr 10 @"" 0.015)'),
-    ("write-badtype", '(ev/write pAw :notbytes 0.015)'), ("write-notwritable", '(ev/write pAr "x" 0.015)'),
+    ("write-badtype", '(ev/write pAw 123 0.015)'), ("write-notwritable", '(ev/write pAr "x" 0.015)'),
     ("write-closed", '(ev/write pCw "x" 0.015)'),
     ("net-read-neg", '(net/read sock -1 @"" 0.015)'), ("net-chunk-neg", '(net/chunk sock -1 @"" 0.015)'),
     ("net-recvfrom-neg", '(net/recv-from sock -1 @"" 0.015)'), ("net-write-bad", '(net/write sock :bad 0.015)'),
@@ -546,7 +546,9 @@ def dirt_prelude(s, dirt, F):
     n = 0
     nsel = 0
     for c in chans:
-        for i in range(nr):
+        wdirt = nw and c in gives and s.chans[c] == 0
+        # (a give discards the stale readers it skips, so junk items and stale readers cannot coexist on one channel)
+        for i in range(0 if wdirt else nr):
             name = "P%d" % n
             n += 1
             if i % 2 == 0:
@@ -557,7 +559,7 @@ def dirt_prelude(s, dirt, F):
                 pre.append(("spawn", name, [("select", [("take", c), ("take", "cP")]), ("take", "cQ")]))
                 nsel += 1
                 others[name] = [(0, "nil"), (0, "(:take,cP,:pp)"), (70, "nil")]
-        if c in gives and s.chans[c] == 0:
+        if wdirt:
             for i in range(nw):
                 name = "P%d" % n
                 n += 1
